@@ -93,3 +93,76 @@ Fixpoint rtb_run (r : rtb) (ops : list op) : list bool :=
    (status then comes from the upstream; 200 in the rig) *)
 Definition dispatch_status (admitted : bool) (upstream_status : Z) : Z :=
   if admitted then upstream_status else 429.
+
+(* ---------- upstreamLimiter: the per-cluster map schema name -> limiter (pkg/flowcontrols/limiter.go) ----------
+   Sync(spec): nothing if the spec equals the one synced last; otherwise every schema of the new spec is
+   synced BY NAME into the map (created if absent; localWrapper.Sync: a changed type gives a new limiter,
+   a token bucket gets Resize(qps, burst), which keeps the bucket when both are unchanged) and the names
+   of the old spec that are not in the new one are deleted.  GetOrDefault(name): the entry, or the exempt
+   default limiter (admits everything) when there is none.  Only token buckets are modelled in detail;
+   [SOther] stands for a sibling schema of another type (max-in-flight, exempt), [None] for its limiter. *)
+Inductive schema := STb (q b : Z) | SOther (kind : Z).
+Definition fcspec := list (string * schema).
+Definition entry := option rtb.
+Record ulim := { uspec : fcspec; umap : list (string * entry) }.
+Definition ulim_new : ulim := {| uspec := []; umap := [] |}.
+
+Definition schema_eqb (a b : schema) : bool :=
+  match a, b with
+  | STb q1 b1, STb q2 b2 => ((q1 =? q2) && (b1 =? b2))%bool
+  | SOther k1, SOther k2 => k1 =? k2
+  | _, _ => false
+  end.
+Definition spec_eqb (a b : fcspec) : bool :=
+  list_eqb (fun x y => (String.eqb (fst x) (fst y) && schema_eqb (snd x) (snd y))%bool) a b.
+
+Fixpoint alookup {A} (k : string) (l : list (string * A)) : option A :=
+  match l with [] => None | (k', v) :: r => if String.eqb k k' then Some v else alookup k r end.
+Fixpoint aremove {A} (k : string) (l : list (string * A)) : list (string * A) :=
+  match l with [] => [] | (k', v) :: r => if String.eqb k k' then aremove k r else (k', v) :: aremove k r end.
+Definition aset {A} (k : string) (v : A) (l : list (string * A)) : list (string * A) := (k, v) :: aremove k l.
+
+Definition sync_one (m : list (string * entry)) (name : string) (sc : schema) : list (string * entry) :=
+  let e := match sc, alookup name m with
+           | STb q b, Some (Some rt) => Some (fst (rtb_step rt (OResize q b)))   (* same type: Resize *)
+           | STb q b, _ => Some (rtb_new q b)                                    (* absent / type changed *)
+           | SOther _, _ => None
+           end in
+  aset name e m.
+
+Fixpoint sync_entries (m : list (string * entry)) (spec : fcspec) : list (string * entry) :=
+  match spec with [] => m | (n, sc) :: r => sync_entries (sync_one m n sc) r end.
+
+Definition usync (u : ulim) (spec : fcspec) : ulim :=
+  if spec_eqb (uspec u) spec then u
+  else
+    let m1 := sync_entries (umap u) spec in
+    let deleted := filter (fun n => negb (str_mem n (map fst spec))) (map fst (uspec u)) in
+    {| uspec := spec; umap := fold_left (fun m n => aremove n m) deleted m1 |}.
+
+(* GetOrDefault(name).TryAcquire() at clock reading now *)
+Definition utry (u : ulim) (name : string) (now : Z) : ulim * bool :=
+  match alookup name (umap u) with
+  | Some (Some rt) =>
+      let '(rt', ok) := rtb_step rt (OTry now) in
+      ({| uspec := uspec u; umap := aset name (Some rt') (umap u) |}, ok)
+  | _ => (u, true)          (* exempt default limiter, or a sibling type that is not modelled *)
+  end.
+
+Inductive uop := UTry (now : Z) | USync (spec : fcspec).
+
+(* decisions of the requests sent to schema [name] *)
+Fixpoint urun (u : ulim) (name : string) (ops : list uop) : list bool :=
+  match ops with
+  | [] => []
+  | UTry now :: r => let '(u', ok) := utry u name now in ok :: urun u' name r
+  | USync spec :: r => urun (usync u spec) name r
+  end.
+
+(* the same requests seen by the bucket alone: a sync is a Resize to the values the spec gives the schema *)
+Fixpoint rtb_tries (r : rtb) (ops : list op) : list bool :=
+  match ops with
+  | [] => []
+  | OTry now :: rest => let '(r', ok) := rtb_step r (OTry now) in ok :: rtb_tries r' rest
+  | OResize q b :: rest => rtb_tries (fst (rtb_step r (OResize q b))) rest
+  end.
